@@ -4,7 +4,7 @@
 (* and the run of its output (machine B) from the same run-time inputs.    *)
 (* Each contract returns "ok" or the name of the first clause that fails.  *)
 (***************************************************************************)
-EXTENDS Integers, Sequences, Accfg
+EXTENDS Integers, Sequences, Accfg, Csr
 
 IsPrefixLen(a, b) == Len(a) <= Len(b)
 
@@ -29,8 +29,15 @@ AccfgObs(a, b) ==
   ELSE IF Len(a.log) # Len(b.log) THEN "EventCount"
   ELSE "ok"
 
+(* ---- CSR lowering (C04) ---- *)
+CsrLowering(c, a, b) ==
+  IF b.fault # "none" THEN "B.fault:" \o b.fault
+  ELSE IF ~NoStateLeft(c.B) THEN "NoStateLeft"
+  ELSE MatchCsr(c.accdecl, a.log, 1, b.log, 1)
+
 Judge(contract, c, a, b) ==
   IF a.fault # "none" THEN "skipA:" \o a.fault
   ELSE CASE contract \in {"dedup", "overlap", "trace"} -> AccfgObs(a, b)
+         [] contract = "csr" -> CsrLowering(c, a, b)
          [] OTHER -> "machinery:unknown-contract"
 =============================================================================
